@@ -50,6 +50,7 @@ func shapedStorageError(marker error, k int) error {
 
 // faultStore is the harness's CredentialStorage: a real map plus injected outcomes, recording every call.
 type faultStore struct {
+	real    *webauthn.InMemoryCredentialStorage // when set: the library's own storage, filled by the op's "storeHistory" in order
 	m       map[string]*webauthn.Credential
 	getMode string
 	setMode string
@@ -118,6 +119,13 @@ func storeFromOp(op M) *faultStore {
 	s := &faultStore{m: map[string]*webauthn.Credential{}, getMode: "real", setMode: "real", calls: []M{}}
 	if g, ok := op["get"].(string); ok {
 		s.getMode = g
+	}
+	if hist, ok := op["storeHistory"].([]M); ok {
+		// every record that was ever saved, in order, through the library's own SetCredential (later ones replace earlier ones)
+		s.real = webauthn.NewInMemoryCredentialStorage()
+		for _, m := range hist {
+			_ = s.real.SetCredential(context.Background(), &webauthn.Credential{ID: unhx(m["id"].(string)), OwnerID: unhx(m["owner"].(string)), PublicKey: unhx(m["pk"].(string))})
+		}
 	}
 	if g, ok := op["set"].(string); ok {
 		s.setMode = g
@@ -259,9 +267,38 @@ func modelAuthClass(c string) string {
 }
 
 func runRegisterImpl(op M) M {
-	st := storeFromOp(op)
+	return runRegisterImplOn(nil, storeFromOp(op), op)
+}
+
+// clientExtOf: the client extension outputs that travel with a credential (nothing the ceremonies consult): chosen by the inert options
+func clientExtOf(op M) map[string]interface{} {
+	in, ok := op["inert"].(M)
+	if !ok {
+		return nil
+	}
+	switch int(num(in["clientExt"])) {
+	case 1:
+		return map[string]interface{}{}
+	case 2:
+		return map[string]interface{}{"appid": true}
+	case 3:
+		return map[string]interface{}{"credProps": map[string]interface{}{"rk": true}}
+	case 4:
+		return map[string]interface{}{"appid": false, "uvm": []interface{}{[]interface{}{1, 2, 3}}}
+	case 5:
+		return map[string]interface{}{"largeBlob": map[string]interface{}{"supported": true}, "appid": true, "unknownExtension": "x"}
+	case 6:
+		return map[string]interface{}{"appidExclude": true, "hmacCreateSecret": true}
+	}
+	return nil
+}
+
+// runRegisterImplOn: the registration ceremony of op on the given RelyingParty (a fresh one over st when rp is nil)
+func runRegisterImplOn(rp *webauthn.RelyingParty, st *faultStore, op M) M {
 	return guard(func() M {
-		rp := webauthn.NewRelyingParty(string(unhx(op["origin"].(string))), st)
+		if rp == nil {
+			rp = webauthn.NewRelyingParty(string(unhx(op["origin"].(string))), st)
+		}
 		opts := &webauthn.PublicKeyCredentialCreationOptions{Challenge: unhx(op["challenge"].(string)),
 			User: webauthn.PublicKeyCredentialUserEntity{ID: unhx(op["userId"].(string))}}
 		for _, a := range intList(op["algs"]) {
@@ -290,7 +327,7 @@ func runRegisterImpl(op M) M {
 			}
 		}
 		fields := oneBuffer(unhx(op["rawId"].(string)), unhx(op["attObj"].(string)), unhx(op["cdj"].(string)))
-		cred := &webauthn.PublicKeyCreationCredential{RawID: fields[0],
+		cred := &webauthn.PublicKeyCreationCredential{RawID: fields[0], ClientExtensionResults: clientExtOf(op),
 			Response: webauthn.AuthenticatorAttestationResponse{ClientDataJSON: fields[2], AttestationObject: fields[1]}}
 		res, err := rp.VerifyRegistrationCeremony(context.Background(), opts, cred, verifyOptsFromOp(op)...)
 		out := M{"calls": st.calls, "store": st.dump()}
@@ -326,6 +363,9 @@ func runAuthImplOn(rp *webauthn.RelyingParty, st *faultStore, op M) M {
 	return guard(func() M {
 		if rp == nil {
 			rp = webauthn.NewRelyingParty(string(unhx(op["origin"].(string))), st)
+			if st.real != nil {
+				rp = webauthn.NewRelyingParty(string(unhx(op["origin"].(string))), st.real)
+			}
 		}
 		opts := &webauthn.PublicKeyCredentialRequestOptions{Challenge: unhx(op["challenge"].(string)),
 			UserVerification: webauthn.UserVerificationRequirement(unhx(op["uv"].(string)))}
@@ -348,7 +388,7 @@ func runAuthImplOn(rp *webauthn.RelyingParty, st *faultStore, op M) M {
 			userHandle = []byte{}
 		}
 		fields := oneBuffer(unhx(op["rawId"].(string)), unhx(op["authData"].(string)), unhx(op["sig"].(string)), unhx(op["cdj"].(string)), userHandle)
-		cred := &webauthn.PublicKeyAssertionCredential{RawID: fields[0],
+		cred := &webauthn.PublicKeyAssertionCredential{RawID: fields[0], ClientExtensionResults: clientExtOf(op),
 			Response: webauthn.AuthenticatorAssertionResponse{ClientDataJSON: fields[3], AuthenticatorData: fields[1],
 				Signature: fields[2], UserHandle: fields[4]}}
 		res, err := rp.VerifyAuthenticationCeremony(context.Background(), opts, cred)
